@@ -16,6 +16,7 @@ import (
 	"time"
 
 	cproto "github.com/rqlite/rqlite/v10/cluster/proto"
+	cmdproto "github.com/rqlite/rqlite/v10/command/proto"
 	"google.golang.org/protobuf/proto"
 	"verif/internal/procnode"
 	"verif/internal/vf"
@@ -66,6 +67,40 @@ func genStreams(c *vf.Ctx) []stream {
 		add("nil-payload", fmt.Sprintf("command type %d, no payload, no credentials", t), 2, frame(&cproto.Command{Type: cproto.Command_Type(t)}), 150, 1)
 		add("nil-payload", fmt.Sprintf("command type %d, no payload, admin credentials", t), 2, frame(&cproto.Command{Type: cproto.Command_Type(t), Credentials: &cproto.Credentials{Username: "admin", Password: "secret"}}), 150, 1)
 		add("nil-payload", fmt.Sprintf("command type %d, no payload, wrong credentials", t), 2, frame(&cproto.Command{Type: cproto.Command_Type(t), Credentials: &cproto.Credentials{Username: "admin", Password: "nope"}}), 150, 1)
+	}
+	// well-formed commands of every type with a real payload, presented without
+	// credentials, with an empty Credentials message, with an unknown user and with
+	// a wrong password: each must be refused and must neither crash the node nor
+	// change its state
+	stmt := func(sql string) *cmdproto.Request {
+		return &cmdproto.Request{Statements: []*cmdproto.Statement{{Sql: sql}}}
+	}
+	payloads := []struct {
+		name string
+		cmd  *cproto.Command
+	}{
+		{"EXECUTE", &cproto.Command{Type: cproto.Command_COMMAND_TYPE_EXECUTE, Request: &cproto.Command_ExecuteRequest{ExecuteRequest: &cmdproto.ExecuteRequest{Request: stmt("INSERT INTO canary(v) VALUES('evil')")}}}},
+		{"QUERY", &cproto.Command{Type: cproto.Command_COMMAND_TYPE_QUERY, Request: &cproto.Command_QueryRequest{QueryRequest: &cmdproto.QueryRequest{Request: stmt("SELECT * FROM canary")}}}},
+		{"REQUEST", &cproto.Command{Type: cproto.Command_COMMAND_TYPE_REQUEST, Request: &cproto.Command_ExecuteQueryRequest{ExecuteQueryRequest: &cmdproto.ExecuteQueryRequest{Request: stmt("INSERT INTO canary(v) VALUES('evil2')")}}}},
+		{"BACKUP", &cproto.Command{Type: cproto.Command_COMMAND_TYPE_BACKUP, Request: &cproto.Command_BackupRequest{BackupRequest: &cmdproto.BackupRequest{Format: cmdproto.BackupRequest_BACKUP_REQUEST_FORMAT_BINARY}}}},
+		{"BACKUP_STREAM", &cproto.Command{Type: cproto.Command_COMMAND_TYPE_BACKUP_STREAM, Request: &cproto.Command_BackupRequest{BackupRequest: &cmdproto.BackupRequest{Format: cmdproto.BackupRequest_BACKUP_REQUEST_FORMAT_BINARY}}}},
+		{"LOAD", &cproto.Command{Type: cproto.Command_COMMAND_TYPE_LOAD, Request: &cproto.Command_LoadRequest{LoadRequest: &cmdproto.LoadRequest{Data: []byte("SQLite format 3\x00 not really")}}}},
+		{"LOAD_CHUNK", &cproto.Command{Type: cproto.Command_COMMAND_TYPE_LOAD_CHUNK, Request: &cproto.Command_LoadChunkRequest{LoadChunkRequest: &cmdproto.LoadChunkRequest{StreamId: "s", SequenceNum: 1, Data: []byte("x")}}}},
+		{"REMOVE_NODE", &cproto.Command{Type: cproto.Command_COMMAND_TYPE_REMOVE_NODE, Request: &cproto.Command_RemoveNodeRequest{RemoveNodeRequest: &cmdproto.RemoveNodeRequest{Id: "n1"}}}},
+		{"NOTIFY", &cproto.Command{Type: cproto.Command_COMMAND_TYPE_NOTIFY, Request: &cproto.Command_NotifyRequest{NotifyRequest: &cmdproto.NotifyRequest{Id: "ghost", Address: "127.0.0.1:1"}}}},
+		{"JOIN", &cproto.Command{Type: cproto.Command_COMMAND_TYPE_JOIN, Request: &cproto.Command_JoinRequest{JoinRequest: &cmdproto.JoinRequest{Id: "ghost", Address: "127.0.0.1:1", Voter: false}}}},
+		{"STEPDOWN", &cproto.Command{Type: cproto.Command_COMMAND_TYPE_STEPDOWN, Request: &cproto.Command_StepdownRequest{StepdownRequest: &cmdproto.StepdownRequest{}}}},
+		{"HIGHWATER_MARK_UPDATE", &cproto.Command{Type: cproto.Command_COMMAND_TYPE_HIGHWATER_MARK_UPDATE, Request: &cproto.Command_HighwaterMarkUpdateRequest{HighwaterMarkUpdateRequest: &cproto.HighwaterMarkUpdateRequest{NodeId: "ghost", HighwaterMark: 1 << 60}}}},
+	}
+	for _, pl := range payloads {
+		for _, cr := range []struct {
+			name string
+			c    *cproto.Credentials
+		}{{"no credentials", nil}, {"empty credentials", &cproto.Credentials{}}, {"unknown user", &cproto.Credentials{Username: "mallory", Password: "x"}}, {"wrong password", &cproto.Credentials{Username: "admin", Password: "nope"}}} {
+			cmd := proto.Clone(pl.cmd).(*cproto.Command)
+			cmd.Credentials = cr.c
+			add("wellformed-unauthorized", fmt.Sprintf("well-formed %s command, %s", pl.name, cr.name), 2, frame(cmd), 250, 1)
+		}
 	}
 	// length prefixes followed by few bytes
 	for _, sz := range []uint64{0, 1, 7, 1 << 20, 1 << 31, 1 << 33, 1 << 36, 1 << 40, 1 << 47, 1 << 63, ^uint64(0)} {
@@ -213,12 +248,12 @@ func send(addr string, s stream) (sent int64, note string) {
 }
 
 func run(c *vf.Ctx) {
-	c.Rule("stream = bytes written to the node's inter-node (mux) port after a mux header byte: every cluster command type with a missing payload x {no, right, wrong} credentials; 64-bit length prefixes 0..2^64-1 followed by 0/1/64 bytes; valid length + random protobuf bytes; random bytes on registered and unregistered mux headers; bit-flipped well-formed frames; truncated frame held open; 600 idle connections; 300 connections announcing 1 GiB each. One real rqlited process (credential store configured, ulimit -v 12 GiB) receives them one after the other; after each stream: process alive, /readyz, a write + read over HTTP, row count as expected, VmRSS and Go heap (HeapSys/HeapInuse from /debug/vars). non-trivial = stream of a class other than pure random bytes; distinct by stream bytes")
+	c.Rule("stream = bytes written to the node's inter-node (mux) port after a mux header byte: every cluster command type with a missing payload x {no, right, wrong} credentials; every command type with a real, state-changing or data-reading payload x {no credentials, empty credentials, unknown user, wrong password} (must be refused without effect); 64-bit length prefixes 0..2^64-1 followed by 0/1/64 bytes; valid length + random protobuf bytes; random bytes on registered and unregistered mux headers; bit-flipped well-formed frames; truncated frame held open; 600 idle connections; 300 connections announcing 1 GiB each. One real rqlited process (credential store configured, ulimit -v 12 GiB) receives them one after the other; after each stream: process alive, /readyz, a write + read over HTTP, row count as expected, VmRSS and Go heap (HeapSys/HeapInuse from /debug/vars). non-trivial = stream of a class other than pure random bytes; distinct by stream bytes")
 	c.Assume("memory oracle: growth of HeapInuse or VmRSS across one stream must stay below bytes sent + 256 MiB (measured while the connections are still open for length-prefix streams)")
 	tmp := vf.TempDir("c35")
 	defer os.RemoveAll(tmp)
 	authFile := filepath.Join(tmp, "auth.json")
-	os.WriteFile(authFile, []byte(`[{"username":"admin","password":"secret","perms":["all"]},{"username":"*","perms":["ready","status","execute","query"]}]`), 0644)
+	os.WriteFile(authFile, []byte(`[{"username":"admin","password":"secret","perms":["all"]},{"username":"*","perms":["ready","status"]}]`), 0644)
 	streams := genStreams(c)
 	var n *procnode.Node
 	var rows int64
@@ -230,6 +265,7 @@ func run(c *vf.Ctx) {
 		n = procnode.New("n1", dir)
 		n.Args = []string{"-auth", authFile, "-raft-snap", "100000", "-raft-snap-int", "1h"}
 		n.VLimitKB = 12 << 20
+		n.Auth = "admin:secret"
 		if err := n.Start(); err != nil {
 			return err
 		}
@@ -288,6 +324,8 @@ func run(c *vf.Ctx) {
 			keyBase = fmt.Sprintf("nil-payload:%s", cproto.Command_Type(t))
 		} else if s.Class == "length-prefix" {
 			keyBase = "length-prefix:unbounded-make"
+		} else if s.Class == "wellformed-unauthorized" {
+			keyBase = "wellformed-unauthorized:" + strings.Fields(strings.TrimPrefix(s.Desc, "well-formed "))[0]
 		}
 		switch {
 		case !after.Alive || !during.Alive:
